@@ -42,7 +42,7 @@ man = dict(
     hooks=dict(
         guard="kani",
         enable="no hook lives in /repo: every check copies /repo's working tree to /verif/.scratch/<id>-<pid>/repo and appends `#[cfg(kani)] #[path = \"/verif/harness/...\"] mod __verif_...;` lines (and a [patch.crates-io] table for dependency shims) there; cfg(kani) is set only by the Kani compiler",
-        baseline_off_cmd="cd /repo && cargo test --workspace --no-fail-fast --offline",
+        baseline_off_cmd="cd /repo && (cargo nextest run --workspace --no-fail-fast --test-threads 8 --offline || cargo test --workspace --no-fail-fast --offline)",
         source_commits=[],
         add_only=True,
     ),
@@ -50,7 +50,7 @@ man = dict(
                   kind_free_text="contract-based deductive verification of the real code: Kani 0.68 function/harness contracts on the real crate (CBMC), Verus on functions extracted mechanically each run")],
     checks=checks,
     not_applicable=nal,
-    notes="quick and thorough currently run the same units for every property (no deeper unit fitted the budget); exit 0 = all obligations discharged; exit 1 + VIOLATION = a registered obligation got a definite negative verdict; exit 2 + INCONCLUSIVE = undecided (never an alarm). See DESIGN.md.",
+    notes="the thorough tier runs every quick unit plus deeper ones where they exist (C16/C17/C18: kernel scripts of up to six answers and three-entry recvmsg/sendmsg; C25: four-step histories); for the other properties both tiers run the same units; exit 0 = all obligations discharged; exit 1 + VIOLATION = a registered obligation got a definite negative verdict; exit 2 + INCONCLUSIVE = undecided (never an alarm). See DESIGN.md.",
 )
 json.dump(man, open(os.path.join(HERE, "MANIFEST.json"), "w"), indent=1)
 print("claimed:", sorted(claimed), "n/a:", [x["property_id"] for x in nal])
